@@ -69,7 +69,7 @@ fn origin_strategy(origins: Vec<String>) -> impl Strategy<Value = Option<String>
 fn case_strategy() -> impl Strategy<Value = Case> {
     let list = |pool: Vec<&'static str>| proptest::collection::vec(prop::sample::select(pool), 0..4).prop_map(|v| { let mut out: Vec<String> = vec![]; for s in v { if !out.contains(&s.to_string()) { out.push(s.to_string()); } } out });
     (proptest::option::weighted(0.85, proptest::bool::weighted(0.25)), list(POOL.to_vec()), list(vec!["GET", "POST", "PUT", "DELETE", "PATCH"]), list(vec!["content-type", "x-custom-header", "Authorization", "X-Mixed-Case"]),
-     list(vec!["content-type", "x-expose", "ETag"]), proptest::option::weighted(0.8, any::<bool>()), prop::sample::select(vec!["86400", "0", "5", "600"]))
+     list(vec!["content-type", "x-expose", "ETag"]), proptest::option::weighted(0.8, any::<bool>()), prop::sample::select(vec!["86400", "0", "5", "600", "-1", "0600", "31536000", "7200.5", "1e3", "abc", ""]))
         .prop_flat_map(|(allow_all, origins, methods, headers, expose, credentials, max_age)| {
             (origin_strategy(origins.clone()), prop::sample::select(vec!["GET", "GET", "OPTIONS", "OPTIONS", "POST", "HEAD", "PUT"]), any::<bool>(), 0u8..12)
                 .prop_map(move |(origin, method, preflight, target)| Case { allow_all, origins: origins.clone(), methods: methods.clone(), headers: headers.clone(), expose: expose.clone(), credentials, max_age: max_age.to_string(), origin, method: method.to_string(), preflight, target })
